@@ -28,6 +28,7 @@ func runC12(p *core.Prog, r *core.Result) {
 		"R12.4 the project's target and module tables are keyed only by printed labels ((*Label).String())",
 		"R12.10 every name stored in a Label outside the label package's own constructors is valid by construction: a constant without ':' or '/', another label's name, or a value that passed label.New / label.Parse - a name taken from module code unvalidated (target(name=\"a:b\")) gives a label that does not survive print + parse",
 		"R12.11 (necessary for canonicity) every successful result of label.Clean is the empty string or the string its scanner wrote (whose shape R12.8 establishes): the argument is never handed back unexamined on a shortcut - a spelling that slips through such a shortcut (`//lib/`) prints to a label that is not the canonical one",
+		"R12.12 (necessary for canonicity) the project of a module label is a cleaned requirement path: (*module).loadModule stores the requirement's path into Label.Project directly, so the configuration loader stores every requirement back with its path passed through CleanPath (C10's R10.12) - a path such as example.com/x//lib otherwise gives a label that prints as module:example.com/x//lib//pkg:f and parses back as a different one",
 		"R12.6 (necessary for canonicity) every package stored in a Label is canonical by construction: a Clean/Join result, another label's package, \"\" or \"//\"",
 		"R12.9 label.New - which, unlike Parse, is handed the components separately - tests its name for both ':' and '/', its kind for ':' and '/', and its project for ':', for \"//\" inside it and for \"/\" at its end (the characters and the boundary the printed form uses as delimiters), so every label it accepts prints to a string that parses back",
 		"R12.8 (necessary for canonicity: Clean is idempotent) inside Clean's loop a separator is written only in front of an element: from every place a '/' is appended, every feasible path (branch conditions interpreted by the zone analysis) appends an element byte before Clean returns or appends another separator",
@@ -487,9 +488,11 @@ func runC14(p *core.Prog, r *core.Result) {
 		"R14.5 the sweep prunes the walk (SkipDir) only below a missing path or a directory, never after handling a file: every stale record and stray temporary of a directory is visited",
 		"R14.4 the sweep removes only entries of the build-state directory walk that are not marked; GC reaches no other file-system mutator",
 		"R14.8 the index is rewritten only by a load that succeeds: behind a saveIndex call no return with an error is reachable (a failed load would leave an index without the targets of the modules that did not load; an index-based collection then removes their records and the build after the repair re-executes them)",
+		"R14.9 the collection decides on the project as it was built: the command that calls Project.GC loads the project with the index argument constantly true - `dawn gc` has no flag arguments, so a full load there leaves out the targets and sources that exist only under the flags of the last build, and their records would be swept",
 	}
 	r.NotDecided = []string{"equality of the executed sets of later builds with and without GC (behavioural)", "interaction with a stale index (dawn gc loads by index)"}
 	checkIndexSavedBySuccessfulLoadOnly(p, r, "R14.8")
+	checkGCCommandLoadsIndex(p, r, "R14.9")
 	gc := need(p, r, "R14.0", "", "Project", "GC")
 	tip := need(p, r, "R14.0", "", "Project", "targetInfoPath")
 	lti := need(p, r, "R14.0", "", "Project", "loadTargetInfo")
@@ -1329,6 +1332,7 @@ func checkCanonicalByConstruction(p *core.Prog, r *core.Result) {
 	r.Floor("R12.6", n, 3, "assignments of Label.Package in the module")
 
 	checkCleanResultsFromScanner(p, r, "R12.11")
+	checkRequirementPathsNormalised(p, r, "R12.12")
 
 	// ---- R12.10 names
 	var valid func(v ssa.Value, depth int, seen map[ssa.Value]bool) (bool, string)
